@@ -297,6 +297,10 @@ class ParameterConfigConverter:
     for unsorted_parent_values, child in children:
       parent_values = sorted(unsorted_parent_values)
       child_proto = cls.to_proto(child.clone_without_children)
+      # Fill in the grandchildren before child_proto is copied into the
+      # ConditionalParameterSpec below (message constructors copy).
+      if child.child_parameter_configs:
+        cls._set_child_parameter_configs(child_proto, child)
       conditional_parameter_spec = (
           study_pb2.StudySpec.ParameterSpec.ConditionalParameterSpec(
               parameter_spec=child_proto
@@ -315,8 +319,6 @@ class ParameterConfigConverter:
         conditional_parameter_spec.parent_int_values.values[:] = parent_values
       else:
         raise ValueError('DOUBLE type cannot have child parameters')
-      if child.child_parameter_configs:
-        cls._set_child_parameter_configs(child_proto, child)
       parent_proto.conditional_parameter_specs.extend(
           [conditional_parameter_spec]
       )
